@@ -100,6 +100,16 @@ def build_arr(spec):
     return q.MeasurementArray(list(spec["values"]), list(spec["errors"]), **kw)
 
 
+def typed(x, t):
+    """the number x as a numpy scalar of type t, a Fraction or a bool (all numbers.Real)"""
+    import numpy as np
+    if t == "Fraction":
+        return Fraction(x)
+    if t == "bool":
+        return bool(x)
+    return getattr(np, t)(x)
+
+
 def build_operand(o):
     import numpy as np
     q = _q()
@@ -107,7 +117,7 @@ def build_operand(o):
     if t == "num":
         return o[1]
     if t == "npnum":
-        return np.float64(o[1])
+        return typed(o[1], o[2] if len(o) > 2 else "float64")
     if t == "meas":
         return q.Measurement(o[1], o[2], unit=o[3]) if o[3] else q.Measurement(o[1], o[2])
     if t in ("rmeas", "derived"):
@@ -115,7 +125,7 @@ def build_operand(o):
     if t == "list":
         return list(o[1])
     if t == "nd":
-        return np.array([float(x) for x in o[1]])
+        return np.array([float(x) for x in o[1]]) if len(o) < 3 else np.array(o[1], dtype=o[2])
     if t == "arr":
         return build_arr(o[1])
     raise ValueError(o)
@@ -142,8 +152,7 @@ def scalar_at(o, i):
     if t == "num":
         return o[1]
     if t == "npnum":
-        import numpy as np
-        return np.float64(o[1])
+        return typed(o[1], o[2] if len(o) > 2 else "float64")
     if t == "meas":
         return q.Measurement(o[1], o[2], unit=o[3]) if o[3] else q.Measurement(o[1], o[2])
     if t in ("rmeas", "derived"):
@@ -151,7 +160,7 @@ def scalar_at(o, i):
     if t == "list":
         return o[1][i]
     if t == "nd":
-        return float(o[1][i])
+        return float(o[1][i]) if len(o) < 3 else build_operand(o)[i]
     if t == "arr":
         s = o[1]
         return q.Measurement(s["values"][i], s["errors"][i], unit=s["unit"]) if s.get("unit") \
@@ -167,9 +176,24 @@ def operand_len(o):
     return None
 
 
-def run_case(case):
+def read_operand(x):
+    """print / evaluate an operand through the public reading paths before it is used"""
+    import numpy as np
+    import qexpy.data.data as dt
+    if isinstance(x, dt.ExperimentalValue):
+        _ = str(x), repr(x), x.value, x.error, x.relative_error, x.unit
+    elif isinstance(x, np.ndarray) and x.dtype == object:
+        _ = str(x), x.values, x.errors, x.unit, x.name
+        for e in x:
+            _ = str(e), e.value, e.error
+        if len(x) >= 2:
+            _ = x.mean(), x.std(), x.sum()
+
+
+def run_case(case, reset=True):
     """-> (result or None, exception name or None, env: list of (object, description))"""
-    reset_globals()
+    if reset:
+        reset_globals()
     q = _q()
     import numpy as np
     import qexpy.data.data as dt
@@ -196,6 +220,8 @@ def run_case(case):
                 reg(["arr"], a, counters)
                 o = build_operand(case["other"])
                 reg(case["other"], o, counters)
+                if case.get("pre_read"):
+                    read_operand(a), read_operand(o)
                 res = apply_op(case["op"], a, o) if case["self_left"] else apply_op(case["op"], o, a)
             elif kind == "neg":
                 a = build_arr(case["A"])
@@ -204,12 +230,16 @@ def run_case(case):
             elif kind == "fn":
                 x = build_operand(case["arg"])
                 reg(case["arg"], x, counters)
+                if case.get("pre_read"):
+                    read_operand(x)
                 res = getattr(q, case["f"])(x)
             elif kind == "log2":
                 x = build_operand(case["a"])
                 reg(case["a"], x, counters)
                 y = build_operand(case["b"])
                 reg(case["b"], y, counters)
+                if case.get("pre_read"):
+                    read_operand(x), read_operand(y)
                 res = q.log(x, y)
             else:
                 raise ValueError(kind)
@@ -402,6 +432,7 @@ def grid(rng, draws):
                     cases.append({"kind": "log2", "a": gen_operand(rng, ka, n, "unit"),
                                   "b": gen_operand(rng, kb, n, "unit")})
         cases += special_values(rng)
+        cases += audit_cases(rng)
     return cases
 
 
@@ -455,6 +486,152 @@ def special_values(rng):
     return cases
 
 
+# a Fraction is NOT used as the bare argument of a math function: q.sqrt(Fraction(5, 2)) raises TypeError in numpy's
+# ufunc, for the scalar and the vectorised call alike -- the results of functions on bare numbers are numpy's business,
+# not a claim of this property.  Fractions ARE used as number operands of arithmetic with arrays (converted since
+# b92b85e).  A bool as an argument of the vectorised two-argument log works since fix c7c6bdb.
+TYPES = ["int64", "int32", "int8", "uint8", "float32", "float16", "Fraction", "bool"]
+
+
+def audit_cases(rng):
+    """dimensions that independently seeded changes needed: equal central values in distinct objects, scale,
+    special values and boundaries, number types, operands that were read before, (oracle only) a second operation on
+    an evaluated result and augmented assignment"""
+    cases = []
+
+    def add(tag, **kw):
+        kw["tag"] = tag
+        cases.append(kw)
+
+    # 1. EQUAL central values (and names) in distinct objects
+    for n in (2, 5):
+        for op in BINOPS:
+            for sl in (True, False):
+                v = gen_val(rng, "pos")
+                A = gen_arr(rng, n, "pos")
+                A["values"] = [v if i % 2 == 0 else A["values"][i] for i in range(n)]
+                A["name"] = "a"
+                twin = dict(A, errors=[gen_err(rng) for _ in range(n)])
+                for other in (["arr", twin], ["arr", dict(A)], ["meas", v, gen_err(rng), A["unit"]], ["list", list(A["values"])],
+                              ["nd", [float(x) for x in A["values"]]], ["num", v],
+                              ["rmeas", [float(v) - 0.5, float(v) + 0.5], None, A["unit"]],
+                              ["derived", v, gen_err(rng), 1, gen_err(rng) / 4, A["unit"]]):
+                    add("equal", kind="binop", op=op, self_left=sl, A=dict(A), other=other)
+        A = gen_arr(rng, n, "unit")
+        add("equal", kind="log2", a=["arr", dict(A)], b=["arr", dict(A, errors=[gen_err(rng) for _ in range(n)])])
+        add("equal", kind="log2", a=["arr", dict(A)], b=["meas", A["values"][0], gen_err(rng), ""])
+    # 2. SCALE: data and uncertainties around 1e-9, 1e-12, 1e9; one tiny uncertainty among ordinary ones
+    for f in (2.0 ** -30, 2.0 ** -40, 2.0 ** 30):
+        def sc(x):
+            return float(x) * f
+        for n in (2, 5):
+            for op in ("+", "-", "*", "/"):
+                for sl in (True, False):
+                    for kind in ("num", "meas", "arr", "list", "nd", "rmeas:eq:plain", "derived"):
+                        A = gen_arr(rng, n, "pos")
+                        A["values"], A["errors"] = [sc(x) for x in A["values"]], [sc(x) for x in A["errors"]]
+                        o = gen_operand(rng, kind, n, "pos")
+                        if o[0] in ("num",):
+                            o = ["num", sc(o[1])]
+                        elif o[0] == "meas":
+                            o = ["meas", sc(o[1]), sc(o[2]), o[3]]
+                        elif o[0] in ("list", "nd"):
+                            o = [o[0], [sc(x) for x in o[1]]]
+                        elif o[0] == "arr":
+                            o = ["arr", dict(o[1], values=[sc(x) for x in o[1]["values"]], errors=[sc(x) for x in o[1]["errors"]])]
+                        elif o[0] == "rmeas":
+                            o = ["rmeas", [sc(x) for x in o[1]], None, o[3]]
+                        else:
+                            o = ["derived", sc(o[1]), sc(o[2]), o[3], o[4], o[5]]
+                        add("scale", kind="binop", op=op, self_left=sl, A=A, other=o)
+        if f < 1:
+            for fn in ("sqrt", "exp", "sin", "sind", "cos", "tan", "tand", "asin", "atan", "log", "log10", "csc", "cot"):
+                A = gen_arr(rng, 2, "unit")
+                A["values"], A["errors"] = [sc(x) for x in A["values"]], [sc(x) for x in A["errors"]]
+                add("scale", kind="fn", f=fn, arg=["arr", A])
+                add("scale", kind="fn", f=fn, arg=["list", list(A["values"])])
+    for op in BINOPS:
+        A = gen_arr(rng, 5, "pos")
+        A["errors"][2] = 2.0 ** -40
+        add("tiny-error", kind="binop", op=op, self_left=True, A=A, other=["meas", gen_val(rng, "pos"), 2.0 ** -40, ""])
+        add("tiny-error", kind="binop", op=op, self_left=False, A=dict(A), other=gen_operand(rng, "arr", 5, "pos"))
+    # 5. SPECIAL values and boundaries
+    for op in BINOPS:
+        for sl in (True, False):
+            for t in (-1, 2, 10, 100):
+                sp = (op == "**" and not sl and t < 0) or None
+                for other in (["num", t], ["num", float(t)], ["meas", t, gen_err(rng), ""]):
+                    c = dict(kind="binop", op=op, self_left=sl, A=gen_arr(rng, 2, "pos"), other=other)
+                    if sp:
+                        c["special"] = True
+                    add("special", **c)
+    for fn in FNAMES:
+        vals = [0, 1, -1, 2, 10, 100, 0.5]
+        for v in vals:
+            add("boundary", kind="fn", f=fn, arg=["num", v], special=True)
+            add("boundary", kind="fn", f=fn, arg=["meas", v, 0.25, ""], special=True)
+        add("boundary", kind="fn", f=fn, arg=["list", vals], special=True)
+        add("boundary", kind="fn", f=fn, arg=["arr", {"values": vals, "errors": [0.25] * len(vals), "unit": "", "name": ""}],
+            special=True)
+    for base, x in ((2, 8), (10, 1000), (100, 10), (2, 0.5), (0.5, 4), (3, 81), (10, 0.001), (2, 1024)):
+        add("exact-power", kind="log2", a=["num", base], b=["num", x])
+        add("exact-power", kind="log2", a=["list", [base, base]], b=["list", [x, x]])
+        add("exact-power", kind="log2", a=["nd", [float(base)] * 2], b=["num", x])
+        add("exact-power", kind="log2", a=["arr", {"values": [base, base], "errors": [0.25, 0.125], "unit": "", "name": ""}],
+            b=["num", x])
+        add("exact-power", kind="log2", a=["num", base],
+            b=["arr", {"values": [x, x], "errors": [0.25, 0.125], "unit": "", "name": ""}])
+    for v in (100, 1000, 0.01, 1):
+        add("exact-power", kind="fn", f="log10", arg=["list", [v, v]])
+        add("exact-power", kind="fn", f="log10", arg=["arr", {"values": [v, v], "errors": [0.25, 0.5], "unit": "", "name": ""}])
+    # 6. number TYPES
+    for t in TYPES:
+        x = 1 if t == "bool" else (3 if not t.startswith("float") and t != "Fraction" else 2.5)
+        for op in BINOPS:
+            for sl in (True, False):
+                add("type", kind="binop", op=op, self_left=sl, A=gen_arr(rng, 2, "pos"), other=["npnum", x, t])
+        if t != "Fraction":
+            add("type", kind="fn", f="sqrt", arg=["npnum", x, t])
+            add("type", kind="fn", f="sind", arg=["npnum", x, t])
+        add("type", kind="log2", a=["npnum", 2, t] if t != "bool" else ["num", 2], b=["arr", gen_arr(rng, 2, "unit")])
+        add("type", kind="log2", a=["arr", gen_arr(rng, 2, "unit")], b=["npnum", x, t])
+        add("type", kind="log2", a=["npnum", x, t], b=["arr", gen_arr(rng, 2, "unit")])
+    for dt_ in ("int64", "int32", "int8", "float32"):
+        for op in BINOPS:
+            for sl in (True, False):
+                add("type", kind="binop", op=op, self_left=sl, A=gen_arr(rng, 2, "pos"), other=["nd", [2, 3], dt_])
+        add("type", kind="fn", f="sqrt", arg=["nd", [4, 9], dt_])
+        add("type", kind="log2", a=["nd", [2, 3], dt_], b=["arr", gen_arr(rng, 2, "unit")])
+    for op in BINOPS:
+        for sl in (True, False):
+            add("type", kind="binop", op=op, self_left=sl, A=gen_arr(rng, 2, "pos"), other=["list", [2, 3.0]])
+            add("type", kind="binop", op=op, self_left=sl, A=gen_arr(rng, 2, "pos"), other=["list", [True, 2]])
+    # 4. operands that were READ (printed, evaluated, aggregated) before they are used
+    for op in BINOPS:
+        for sl in (True, False):
+            for kind in ("meas", "arr", "rmeas:eq:plain", "rmeas:ne:err", "derived"):
+                add("", kind="binop", op=op, self_left=sl, A=gen_arr(rng, 2, "pos"), other=gen_operand(rng, kind, 2, "pos"),
+                    pre_read=True)
+    for fn in FNAMES:
+        add("", kind="fn", f=fn, arg=gen_operand(rng, "arr", 2, "unit"), pre_read=True)
+        add("", kind="fn", f=fn, arg=gen_operand(rng, "derived", 2, "unit"), pre_read=True)
+    for ka in ("arr", "meas", "derived"):
+        for kb in ("arr", "meas", "rmeas:eq:plain"):
+            add("", kind="log2", a=gen_operand(rng, ka, 2, "unit"), b=gen_operand(rng, kb, 2, "unit"), pre_read=True)
+    # 3/4/8. (oracle only) the evaluated result of one operation as the operand of the next; augmented assignment
+    for op in ("+", "-", "*", "/"):
+        for op2 in ("+", "-", "*", "/", "**"):
+            for k1 in ("num", "meas", "arr"):
+                for k2 in ("num", "meas", "arr", "list"):
+                    add("", kind="chain", op=op, self_left=rng.random() < 0.5, A=gen_arr(rng, 2, "pos"),
+                        other=gen_operand(rng, k1, 2, "pos"), op2=op2, self_left2=rng.random() < 0.7,
+                        other2=gen_operand(rng, k2, 2, "pos") if op2 != "**" else ["num", rng.choice([2, 0.5, -1])])
+    for op in BINOPS:
+        for kind in ("num", "npnum", "meas", "list", "nd", "arr", "rmeas:eq:plain", "derived"):
+            add("", kind="iop", op=op, A=gen_arr(rng, 2, "pos"), other=gen_operand(rng, kind, 2, "pos"))
+    return cases
+
+
 def malformed(rng):
     """operands of a different length (never length 1, which numpy broadcasts): must be rejected"""
     cases = []
@@ -464,6 +641,8 @@ def malformed(rng):
                 for n, m in ((2, 3), (5, 2), (3, 2)):
                     cases.append({"kind": "binop", "op": op, "self_left": sl, "A": gen_arr(rng, n, "pos"),
                                   "other": gen_operand(rng, kind, m, "pos")})
+                    if (n, m) == (3, 2):
+                        cases.append(json.loads(json.dumps(cases[-1])))      # the same invalid input offered twice
     return cases
 
 
@@ -487,13 +666,23 @@ def okind(o):
 
 
 def okind0(o):
+    if o[0] in ("npnum", "nd") and len(o) > 2:
+        return "{}:{}".format(o[0], o[2])
     if o[0] == "rmeas":
         return "rmeas" + ("+err" if o[2] is not None else "") + "[{}]".format(len(o[1]))
     return o[0]
 
 
 def cell_of(case):
+    return cell_of0(case) + (":read-first" if case.get("pre_read") else "") + (":" + case["tag"] if case.get("tag") else "")
+
+
+def cell_of0(case):
     k = case["kind"]
+    if k == "chain":
+        return "chain:{}:{}:{}:{}".format(case["op"], okind(case["other"]), case["op2"], okind(case["other2"]))
+    if k == "iop":
+        return "inplace:{}=:{}".format(case["op"], okind(case["other"]))
     if k == "binop":
         return "binop:{}:{}:{}".format(case["op"], "A.op.x" if case["self_left"] else "x.op.A", okind(case["other"]))
     if k == "neg":
@@ -512,8 +701,14 @@ def correspondence(ctx):
     cases += grid(rng, ctx.n(1, 40))
     cases += malformed(rng)
     rows = []
+    skipped = 0
     for case in cases:
+        if case["kind"] in ("chain", "iop"):
+            continue                      # oracle-only kinds (the model has one operation per case)
         r, exn, env = run_case(case)
+        if exn is not None and case.get("special"):
+            skipped += 1                  # a boundary value outside the operator's domain (the scalar path fails alike)
+            continue
         if exn is None:
             cont, descs = observe(r, env)
             obs = "(Some ({}, {}))".format(cont, coq_list([c_desc(d) for d in descs]))
@@ -532,7 +727,7 @@ def correspondence(ctx):
                 "with / without individual reading uncertainties --, a calculated quantity, list, "
                 "ndarray, MeasurementArray) + unary minus + 19 vectorised math functions x 5 argument kinds + two-argument "
                 "log over 10 x 10 argument kinds (both positions), each for lengths 1, 2, 5 with random dyadic contents inside the domains "
-                "(thorough: 40 content draws), plus single operands whose central value is exactly 0 or 1 (numbers, numpy scalars, measurements with non-zero uncertainty, repeated, calculated) on both sides of every operator where inside its domain, arrays holding the values 0 and 1, log(A, 1); plus operands of mismatched length (must raise). Observed: the container "
+                "(thorough: 40 content draws), plus single operands whose central value is exactly 0 or 1 (numbers, numpy scalars, measurements with non-zero uncertainty, repeated, calculated) on both sides of every operator where inside its domain, arrays holding the values 0 and 1, log(A, 1); plus the audit dimensions: equal central values and names in distinct objects, data and uncertainties scaled by 2^-40 / 2^-30 / 2^30, one tiny uncertainty, special values -1 / 2 / 10 / 100, boundary arguments of every function, exact powers for log, numbers of every numpy width / Fraction / bool, typed ndarrays, operands read before use; plus operands of mismatched length (must raise, also twice). Observed: the container "
                 "kind and, for every element of the result, its Formula tree (operator literal, operand identities: i-th "
                 "element object of which array / the measurement / Constant with which value / plain number), compared "
                 "with the dispatch model. non-trivial = distinct (cell, length) pairs covered")
@@ -576,7 +771,7 @@ def close(a, b, tol=1e-12):
     except Exception:  # noqa
         return False
     if a != a or b != b:
-        return False
+        return a != a and b != b      # undefined in the array exactly where the scalar operation is undefined
     return a == b or abs(a - b) <= tol * (abs(a) + abs(b))
 
 
@@ -601,17 +796,79 @@ def same_quantity(tag, got, want):
     return None
 
 
-def check_case_oracle(case):
+def scalar_want(case, i):
+    """the same operation on FRESH scalar copies of the i-th operands, through the public API"""
+    q = _q()
+    kind = case["kind"]
+    if kind in ("binop", "iop", "chain"):
+        a = scalar_at(["arr", case["A"]], i)
+        x = scalar_at(case["other"], i)
+        r = apply_op(case["op"], a, x) if case.get("self_left", True) else apply_op(case["op"], x, a)
+        if kind == "chain":
+            y = scalar_at(case["other2"], i)
+            _ = r.value, r.error          # the intermediate result has been evaluated, as in the array run
+            r = apply_op(case["op2"], r, y) if case.get("self_left2", True) else apply_op(case["op2"], y, r)
+        return r
+    if kind == "neg":
+        return -scalar_at(["arr", case["A"]], i)
+    if kind == "fn":
+        return getattr(q, case["f"])(scalar_at(case["arg"], i))
+    return q.log(scalar_at(case["a"], i), scalar_at(case["b"], i))
+
+
+def run_extra(case, reset=True):
+    """oracle-only kinds: a second operation on the (evaluated) result of the first; augmented assignment"""
+    if reset:
+        reset_globals()
+    try:
+        with warnings.catch_warnings():
+            warnings.simplefilter("ignore")
+            a = build_arr(case["A"])
+            o = build_operand(case["other"])
+            if case["kind"] == "iop":
+                op = case["op"]
+                if op == "+":
+                    a += o
+                elif op == "-":
+                    a -= o
+                elif op == "*":
+                    a *= o
+                elif op == "/":
+                    a /= o
+                else:
+                    a **= o
+                res = a
+            else:
+                r1 = apply_op(case["op"], a, o) if case.get("self_left", True) else apply_op(case["op"], o, a)
+                _ = r1.values, r1.errors, str(r1)          # read before it becomes an operand
+                o2 = build_operand(case["other2"])
+                res = apply_op(case["op2"], r1, o2) if case.get("self_left2", True) else apply_op(case["op2"], o2, r1)
+            for x in res:
+                _ = x.value, x.error, x.unit
+        return res, None, []
+    except Exception as e:  # noqa
+        return None, type(e).__name__, []
+
+
+def check_case_oracle(case, reset=True):
     """None or a description of the first contradiction with the property"""
     q = _q()
-    res, exn, _ = run_case(case)
     kind = case["kind"]
-    if kind == "binop":
+    if kind in ("chain", "iop"):
+        res, exn, _ = run_extra(case, reset)
+    else:
+        res, exn, _ = run_case(case, reset)
+    if kind in ("binop", "chain", "iop"):
         n = len(case["A"]["values"])
         m = operand_len(case["other"])
         if m is not None and m != n:
             return None          # outside the property
         args = [case["other"]]
+        if kind == "chain":
+            m2 = operand_len(case["other2"])
+            if m2 is not None and m2 != n:
+                return None
+            args.append(case["other2"])
     elif kind == "neg":
         n = len(case["A"]["values"])
         args = []
@@ -626,9 +883,19 @@ def check_case_oracle(case):
         n = ls[0] if ls else None
     label = cell_of(case)
     if exn is not None:
-        return "{}: raised {}".format(label, exn)
+        # an exception is a violation unless the scalar operation fails on some element too (e.g. 1 / 0)
+        for i in range(n or 1):
+            try:
+                with warnings.catch_warnings():
+                    warnings.simplefilter("ignore")
+                    w = scalar_want(case, i)
+                    if hasattr(w, "error"):
+                        _ = w.value, w.error, w.unit
+            except Exception:  # noqa
+                return None
+        return "{}: raised {} but the scalar operation succeeds on every element".format(label, exn)
     cont = container_of(res)
-    has_eva = kind in ("binop", "neg") or any(a[0] == "arr" for a in args)
+    has_eva = kind in ("binop", "neg", "chain", "iop") or any(a[0] == "arr" for a in args)
     has_nd = any(a[0] == "nd" for a in args)
     if kind == "fn" and case["arg"][0] == "npnum":
         has_nd = False
@@ -646,16 +913,7 @@ def check_case_oracle(case):
         with warnings.catch_warnings():
             warnings.simplefilter("ignore")
             try:
-                if kind == "binop":
-                    a = scalar_at(["arr", case["A"]], i)
-                    x = scalar_at(case["other"], i)
-                    want = apply_op(case["op"], a, x) if case["self_left"] else apply_op(case["op"], x, a)
-                elif kind == "neg":
-                    want = -scalar_at(["arr", case["A"]], i)
-                elif kind == "fn":
-                    want = getattr(q, case["f"])(scalar_at(case["arg"], i))
-                else:
-                    want = q.log(scalar_at(case["a"], i), scalar_at(case["b"], i))
+                want = scalar_want(case, i)
             except Exception as e:  # noqa
                 return "{}: the scalar operation on element {} raised {} but the array operation did not".format(
                     label, i, type(e).__name__)
@@ -663,6 +921,8 @@ def check_case_oracle(case):
             if why:
                 return why
             # plain numbers: also against the math module (independent of the package)
+            if case.get("special"):
+                continue        # boundary values: both sides may be nan / inf, the math module would raise
             if kind == "fn" and case["arg"][0] in ("num", "list", "nd"):
                 ref = MATH_REF[case["f"]](float(scalar_at(case["arg"], i)))
                 if not close(got, ref, 1e-9):
@@ -717,40 +977,104 @@ def shrink_case(case):
     return best
 
 
+def collide(case, rng):
+    """the same central values and names with other uncertainties / units: anything the library memoises by value
+    or by name between calls would answer for the previous case"""
+    c = json.loads(json.dumps(case))
+
+    def other_errors(o):
+        if o[0] == "arr":
+            o[1]["errors"] = [gen_err(rng) * 3 for _ in o[1]["errors"]]
+            o[1]["unit"] = rng.choice(UNITS)
+        elif o[0] == "meas":
+            o[2], o[3] = gen_err(rng) * 3, rng.choice(UNITS)
+        elif o[0] == "rmeas":
+            o[2] = [gen_err(rng) for _ in o[1]] if o[2] is None else None
+        elif o[0] == "derived":
+            o[2] = gen_err(rng) * 3
+    if "A" in c:
+        other_errors(["arr", c["A"]])
+    for key in ("other", "other2", "arg", "a", "b"):
+        if key in c:
+            other_errors(c[key])
+    c["tag"] = (c.get("tag") or "") + "+same-values-again"
+    return c
+
+
+def run_chain(prefix, case):
+    """in a freshly imported library: the cases of [prefix] one after the other without any reset, then [case]"""
+    core.fresh_impl()
+    for c in prefix:
+        try:
+            check_case_oracle(c, reset=False)
+        except Exception:  # noqa
+            pass
+    return check_case_oracle(case, reset=False)
+
+
 def search(ctx, suspects, budget):
     t0 = time.time()
     out, seen = [], set()
     rng = ctx.rng
     todo = [s["case"] for s in suspects if s.get("kind") == "cell" and s.get("case")]
     todo += [c["case"] for c in load_corpus() if c.get("kind") == "cell"]
-    n = 0
+    n = chained = passes = 0
     fresh = []
+    since = []            # what ran since the library was last imported afresh
+    core.fresh_impl()
     while True:
+        keep_state = False
         if todo:
             case = todo.pop(0)
-        elif time.time() - t0 > budget and n >= 200:
+        elif time.time() - t0 > budget and passes >= 1 and not fresh:
             break
         else:
             if not fresh:
-                if n > ctx.n(3000, 60000):
+                if passes >= ctx.n(1, 12):
                     break
+                passes += 1                     # every cell of the grid is visited at least once, whatever the budget
                 fresh = grid(rng, 1)
                 rng.shuffle(fresh)
             case = fresh.pop()
+            r = rng.random()
+            if r < 0.15:
+                fresh.append(collide(case, rng))       # next: the same values again, other uncertainties, no reset
+            keep_state = r < 0.4 or (case.get("tag") or "").endswith("+same-values-again")
         n += 1
-        why = check_case_oracle(case)
-        if why:
-            cell = cell_of(case)
-            if cell in seen:
-                continue
-            seen.add(cell)
+        if len(since) >= 40:
+            core.fresh_impl()
+            since = []
+        why = check_case_oracle(case, reset=not keep_state)
+        chained += keep_state
+        if not why:
+            since.append(case)
+            continue
+        cell = cell_of(case)
+        if cell in seen:
+            continue
+        seen.add(cell)
+        core.fresh_impl()
+        alone = check_case_oracle(case)
+        if alone:
             small = shrink_case(case)
-            why = check_case_oracle(small) or why
+            core.fresh_impl()
+            why = check_case_oracle(small) or alone
             out.append(Violation(ID, "cell", small, why))
-            if len(out) >= 4:
-                break
+        else:
+            prefix = core.minimize_session(since, lambda pre: run_chain(pre, case) is not None)
+            what = run_chain(prefix, case)
+            if what:
+                out.append(Violation(ID, "session", {"prefix": prefix, "case": case},
+                                     "after {} earlier operation(s) in the same interpreter: {}".format(len(prefix), what)))
+            else:
+                ctx.notes.append("oracle: a failure that did not reproduce from a fresh import was dropped: " + why[:120])
+        core.fresh_impl()
+        since = []
+        if len(out) >= 4:
+            break
     reset_globals()
-    ctx.notes.append("oracle: {} grid cells compared with the scalar operation on fresh copies".format(n))
+    ctx.notes.append("oracle: {} grid cells compared with the scalar operation on fresh copies ({} of them without a "
+                     "reset of the library state after the previous one)".format(n, chained))
     return out
 
 
@@ -765,6 +1089,10 @@ def load_corpus():
 
 
 def replay(ctx, v):
+    if v["kind"] == "session":
+        why = run_chain(v["case"]["prefix"], v["case"]["case"])
+        reset_globals()
+        return Violation(ID, v["kind"], v["case"], why) if why else None
     why = check_case_oracle(v["case"])
     reset_globals()
     return Violation(ID, v["kind"], v["case"], why) if why else None
